@@ -1015,6 +1015,7 @@ var builtinSpecFuncs = map[string]bsig{
 	"sizeAt":     {[]string{"Str", "Int"}, "Int"},
 	"hasSuffix":  {[]string{"Str", "Str"}, "Bool"},
 	"hasPrefix":  {[]string{"Str", "Str"}, "Bool"},
+	"containsStr": {[]string{"Str", "Str"}, "Bool"},
 	"replaceAll": {[]string{"Str", "Str", "Str"}, "Str"},
 	"splitStr":   {[]string{"Str", "Str"}, "Sl.Str"},
 	"joinStr":    {[]string{"Sl.Str", "Str"}, "Str"},
